@@ -207,7 +207,17 @@ def suite_history(ctx, case):
                             pf2 = fresh.solve(method=op[1], options={'disp': False})
                     ctx.pred('history', sub, bool(np.allclose(p.totalCorr.data, pf2.totalCorr.data, rtol=1e-7, atol=1e-9)),
                              'solve on the edited System differs from solve on a fresh System with the same parameters', key='C16:sweep-fresh')
-                x0 = 0.05 * np.sin(1.0 + 0.37 * np.arange(p.sys.rank * p.sys.rank * p.sys.domain.length))
+                    # the same, unedited System solved once more: the identical computation, so the identical result (to the last
+                    # ulps) unless the first solve left something behind on the System that the second one picks up
+                    with warnings.catch_warnings():
+                        warnings.simplefilter('ignore')
+                        with np.errstate(all='ignore'):
+                            try: pr = s.solve(method=op[1], options={'disp': False})
+                            except Exception: pr = None
+                    again = pr is not None and bool(np.allclose(pr.totalCorr.data, p.totalCorr.data, rtol=1e-13, atol=1e-13, equal_nan=True))
+                    ctx.pred('history', sub, again, 'a second solve of the unedited System differs from the first: solve carries state from one call to the next on the System', key='C16:sweep-fresh')
+                    ctx.pred('history', sub, snapshot(s) == before, 'solve (repeated) modified the System', key='C16:system-modified')
+                x0 =0.05 * np.sin(1.0 + 0.37 * np.arange(p.sys.rank * p.sys.rank * p.sys.domain.length))
                 frozen.append((G.wiring_tok(p), p.omega.data.copy(), float(p.sys.kT), [p.sys.density[t] for t in p.sys.types], [p.sys.diameter[t] for t in p.sys.types],
                                (p.sys.domain.length, float(p.sys.domain.dr)), x0, cost_outcome(p, x0) if op[0] == 'create' else None))
         else:
